@@ -92,6 +92,12 @@ def run(ck):
                    "correspondence Model.lean vs %s broken (s1 untouched-on-failure still holds on the implementation)" % base.SITE,
                    {"request": base.line(sc), "script": sc, "implementation": a_raw,
                     "model_variant": "%s/%s" % variant, "model": m_raw}, False)
+    e2e_n, e2e_fail = 0, 0
+    if not ck.quick:
+        e2e = base.run_e2e(ck, rng)
+        e2e_n, e2e_fail = base.report_e2e(ck, "C40", e2e, reported)
+        for (m, msg) in ck.leanchecker(PROPS):
+            ck.violation("leanchecker:" + m, "leanchecker rejects %s" % m, {"log": msg}, False)
     full = variant[0] == "late"
     ck.assumptions += [
         "M: Model.lean is tied to Integrate.hxx by differential execution of the real `mfront::gb::integrate<Behaviour>` instantiated with a scripted mock behaviour (harness/C39/mock.hxx): identical event trace, return value, rdt bits, written buffers, error message on every request",
@@ -110,4 +116,5 @@ def run(ck):
         "differing_answers": ndiff, "property_failures_on_implementation": failing,
         "failing_stage_histogram": dict(stage_hist), "full_theorem_applies": full,
         "traces_validated_against_impl": n, "samples": samples,
+        "generated_behaviour_calls": e2e_n, "generated_behaviour_property_failures": e2e_fail,
     })
